@@ -1,5 +1,6 @@
 import QV.Wire
 import QV.C20.Model
+import QV.C20.Spec
 import QV.Shared.SeqGateWire
 /-! Driver side of the C20 correspondence check. -/
 namespace QV.C20
@@ -28,13 +29,16 @@ def modelOut (p : Program String) (sel : String → Bool) : Option ImplOut :=
 
 /-- The specification evaluated on the implementation's output `o` (theorems in Props.lean tie each
 conjunct to the declarative statement):
-* returned `Ok`: the body is the one `expand` computes (`expand_ok_iff_Expands`), the retained
-  definitions are exactly those `keptDefs` selects (`mem_keptDefs_iff`), in order, and untouched;
-* returned `Err e`: `expand` reports `e` (`expand_err_iff_ErrAt`). -/
+* returned `Ok`: the body is the one `expand` computes (`C20_expand_ok_iff_pure`) **and**, independently of
+  the model, the verifier `verifyPure` accepts it as the stack-free expansion (`C20_verifyPure_iff`), the retained
+  definitions are exactly those `keptDefs` selects (`C20_kept_iff`), in order, and untouched;
+* returned `Err e`: `expand` reports `e` (`C20_expand_err_iff`). -/
 def specCheck (p : Program String) (sel : String → Bool) (o : ImplOut) : Bool :=
   match o with
   | .ok body kept intact =>
-    decide (expand p.defs sel p.body = .ok body) && kept == (keptDefs p.defs sel).map (·.name) && intact
+    decide (expand p.defs sel p.body = .ok body) &&
+      decide (verifyPure p.defs sel (p.defs.map (·.name)) p.body body = some []) &&
+      kept == (keptDefs p.defs sel).map (·.name) && intact
   | .err e => decide (expand p.defs sel p.body = .err e)
 
 /-- deepest nesting of expansions reached (for the distribution tags only) -/
